@@ -382,3 +382,56 @@ def d14_family():
              {"op": "finalise", "ts": 101, "hash": "h1", "count": 1},
              call(0, "tiny", "d14b"), call(1, "ample", "d14c"),
              {"op": "finalise", "ts": 102, "hash": "h2", "count": 2}]]
+
+
+def pool_failed_predecessor_family():
+    """C08: the predecessor a parked transaction waits for is VALID but FAILS (reverts / halts on an invalid opcode / runs out of
+    gas).  It still consumes its nonce, so the parked successor must be executed in the same call, at the next index (two receipts,
+    finalise count 2) and must leave the pool; with two parked successors all three go in one call."""
+    out = []
+    head = [{"op": "init", "hash": "h100", "ts": 100, "height": 0},
+            {"op": "tx", "via": "deploy", "from": "s1", "to": "NULL", "ckind": "cell", "ops": [], "lc": {"fn": "none"}, "insc": "pf0", "idx": 0,
+             "hash": "h1", "ts": 101, "gas": "ample", "txid": "x1", "enc": "hex"},
+            {"op": "finalise", "ts": 101, "hash": "h1", "count": 1}]
+
+    def transact(nonce, ops, insc, idx, b, gas="ample"):
+        return {"op": "transact", "signer": "k1", "nonce": nonce, "to": "c_s1_0", "ckind": "NULL", "ops": ops, "chain": "own", "insc": insc,
+                "idx": idx, "hash": "h%d" % b, "ts": 100 + b, "txid": "x" + insc, "gas": gas, "enc": "hex"}
+    fin = lambda b, count: {"op": "finalise", "ts": 100 + b, "hash": "h%d" % b, "count": count}
+    bad_ops = ([{"op": "sstore", "s": 1, "v": 2}, {"op": "revert"}], [{"op": "sstore", "s": 1, "v": 2}, {"op": "invalid"}])
+    for k, ops in enumerate(bad_ops):
+        for parked in (1, 2):
+            for same_block in (True, False):
+                s = list(head)
+                for j in range(parked, 0, -1):
+                    s.append(transact(j, [{"op": "sstore", "s": 2 + j, "v": j}], "pf%d%d%d" % (k, parked, j), 0, 2))
+                if same_block:
+                    s += [transact(0, ops, "pf%d%dz" % (k, parked), 0, 2), fin(2, 1 + parked)]
+                else:
+                    s += [fin(2, 0), transact(0, ops, "pf%d%dz" % (k, parked), 0, 3), fin(3, 1 + parked)]
+                s += [fin(4 if not same_block else 3, 0), {"op": "commit"}]
+                out.append(s)
+    return out
+
+
+def zero_timestamp_family():
+    """C05: a block under construction whose timestamp is 0 (a legal value, and the value a 'not set' field has): a later call or a
+    finalise of that block with another timestamp must be rejected like for any other block, and the block then continues."""
+    out = []
+    for first_via in ("deploy", "deposit"):
+        s = [{"op": "init", "hash": "h100", "ts": 0, "height": 0}]
+        s.append({"op": "tx", "via": "deploy", "from": "s1", "to": "NULL", "ckind": "cell", "ops": [], "lc": {"fn": "none"}, "insc": "zt0", "idx": 0,
+                  "hash": "h1", "ts": 0, "gas": "ample", "txid": "x1", "enc": "hex"})
+        s.append(_tx_call("s1", "c_s1_0", [_sstore(1, 1)], "zt1", 1, "h1", 1700000000))      # rejected: other timestamp
+        s.append({"op": "finalise", "ts": 7, "hash": "h1", "count": 1})                        # rejected: other timestamp
+        s.append(_tx_call("s1", "c_s1_0", [_sstore(1, 2)], "zt2", 1, "h1", 0))
+        s.append({"op": "finalise", "ts": 1, "hash": "h1", "count": 2})                        # rejected
+        s.append({"op": "finalise", "ts": 0, "hash": "h1", "count": 2})
+        s.append(_tx_call("s1", "c_s1_0", [_sstore(1, 3)], "zt3", 0, "h2", 0))
+        s.append(_tx_call("s1", "c_s1_0", [_sstore(2, 3)], "zt4", 1, "h2", 5))                # rejected
+        s.append({"op": "finalise", "ts": 0, "hash": "h2", "count": 1})
+        s.append({"op": "commit"})
+        if first_via == "deposit":
+            s = s[:1] + [{"op": "finalise", "ts": 0, "hash": "h90", "count": 0}] + s[1:]
+        out.append(s)
+    return out
